@@ -468,7 +468,14 @@ func (c *Check) midTransitionCease(rule string) {
 				break
 			}
 		}
-		okF := from != nil && from.Equal(isRange(openSent, 255))
+		if from == nil {
+			// the decision is not a chain of field comparisons in run() itself
+			// (a predicate helper): what it decides is checked by the event
+			// contracts "disabled mid-transition …" on fsm.run (fsmContracts)
+			c.ok(rule, "fsm.run", "from-state set at Cease", p.InstrPos(site), "decision delegated to a helper: covered by the mid-transition event contracts")
+			continue
+		}
+		okF := from.Equal(isRange(openSent, 255))
 		c.require(okF, rule, "fsm.run", "from-state set at Cease", p.InstrPos(site), fmt.Sprintf("Cease is sent exactly for from ∈ [openSent(%d),…]; computed %v", openSent, from))
 		cv, isC := connNN.IsConst()
 		c.require(isC && cv == 1, rule, "fsm.run", "connection present at Cease", p.InstrPos(site), "Cease is written only when a connection exists")
@@ -495,8 +502,22 @@ func (c *Check) midTransitionCease(rule string) {
 			if r.Block().Index != 0 && len(r.Block().Preds) == 0 {
 				return // synthetic recover block
 			}
+			if r.Parent() != fn {
+				return // a helper's return is not a return of run()
+			}
 			nret++
 			ok2 := guard != nil && guard.Dominates(r.Block())
+			if !ok2 && guard != nil {
+				// the decision may be one call of a predicate helper: the block
+				// holding that call starts the decision
+				for b := site.Block().Idom(); b != nil; b = b.Idom() {
+					for _, in := range b.Instrs {
+						if p.helperCallee(in) != nil && b.Dominates(r.Block()) {
+							ok2 = true
+						}
+					}
+				}
+			}
 			c.require(ok2, rule, "fsm.run", "return passes the Cease decision", p.InstrPos(r), "every return of run() is reached through the mid-transition Cease decision (no early return from the rendezvous)")
 		}
 	})
